@@ -638,3 +638,126 @@ theorem frame_specMove {f : Forest} {keep : Keep} {dest : Dest} {c : Nat} {t : H
         exact ⟨cx', h', hs'.trans hs1⟩
 
 end XotModel
+
+namespace XotModel
+open HTree Spec
+
+/-- Frame of a move, whether or not the destination is already occupied. -/
+theorem frame_specMove' {f : Forest} {dest : Dest} {c : Nat} {t : HTree} {q : Nat} {vq : Value}
+    {Lq : List HTree} (inv : f.Inv) (norm : f.Normal)
+    (hgc : f.get? c = some t) (sq : SiteAt f q vq Lq) (hqt : q ∉ handles t) (hvq : vq.isText = false)
+    (hsite : dest.site f = some q)
+    {x : Nat} {cx : Ctx} (hx : f.ctx? x = some cx)
+    (h1 : cx.parent ≠ q) (h2 : some cx.parent ≠ f.parent? c) (h3 : cx.parent ∉ handles t) (h4 : x ∉ handles t) :
+    ∃ cx', (specMove (Keep.resident c) dest c f).ctx? x = some cx' ∧ cx'.shape = cx.shape := by
+  cases hocc : dest.occupiedBy f c with
+  | true =>
+    refine ⟨cx, ?_, rfl⟩
+    unfold specMove; rw [hocc]; exact hx
+  | false =>
+    exact frame_specMove inv norm (Keep.resident_spec c) hgc sq hqt hvq hocc hsite hx h1 h2 h3 h4
+
+theorem append_frame {f : Forest} {p c : Nat} {t : HTree} (inv : f.Inv) (norm : f.Normal)
+    (hok : (f.append p c).2 = .ok) (hgc : f.get? c = some t)
+    {x : Nat} {cx : Ctx} (hx : f.ctx? x = some cx)
+    (h1 : cx.parent ≠ p) (h2 : some cx.parent ≠ f.parent? c) (h3 : cx.parent ∉ handles t) (h4 : x ∉ handles t) :
+    ∃ cx', (f.append p c).1.ctx? x = some cx' ∧ cx'.shape = cx.shape := by
+  rw [append_spec (Keep.resident_spec c) inv norm hok]
+  have nd := inv.nodup
+  have hsc : f.structureCheck (some p) c = true := by
+    cases h : f.structureCheck (some p) c with
+    | true => rfl
+    | false => rw [Forest.append_unfold] at hok; simp [h] at hok
+  obtain ⟨vp, Lp, t', hgp, hgc', hpt, hnorm, hndoc, hvp⟩ := Forest.structureCheck_unpack nd hsc
+  rw [hgc] at hgc'
+  have := Option.some.inj hgc'
+  subst this
+  have hvq : vp.isText = false := by
+    cases hvp with
+    | inl h => cases vp <;> simp_all [Value.isElement, Value.isText]
+    | inr h => cases vp <;> simp_all [Value.isDocument, Value.isText]
+  exact frame_specMove' inv norm hgc ⟨nd, hgp⟩ hpt hvq (by simp [Dest.site, Forest.isLive_of_get hgp]) hx h1 h2 h3 h4
+
+theorem prepend_frame {f : Forest} {p c : Nat} {t : HTree} (inv : f.Inv) (norm : f.Normal)
+    (hok : (f.prepend p c).2 = .ok) (hgc : f.get? c = some t)
+    {x : Nat} {cx : Ctx} (hx : f.ctx? x = some cx)
+    (h1 : cx.parent ≠ p) (h2 : some cx.parent ≠ f.parent? c) (h3 : cx.parent ∉ handles t) (h4 : x ∉ handles t) :
+    ∃ cx', (f.prepend p c).1.ctx? x = some cx' ∧ cx'.shape = cx.shape := by
+  rw [prepend_spec inv norm hok]
+  have nd := inv.nodup
+  have hsc : f.structureCheck (some p) c = true := by
+    cases h : f.structureCheck (some p) c with
+    | true => rfl
+    | false => rw [prepend_unfold] at hok; simp [h] at hok
+  obtain ⟨vp, Lp, t', hgp, hgc', hpt, hnorm, hndoc, hvp⟩ := Forest.structureCheck_unpack nd hsc
+  rw [hgc] at hgc'
+  have := Option.some.inj hgc'
+  subst this
+  have hvq : vp.isText = false := by
+    cases hvp with
+    | inl h => cases vp <;> simp_all [Value.isElement, Value.isText]
+    | inr h => cases vp <;> simp_all [Value.isDocument, Value.isText]
+  exact frame_specMove' inv norm hgc ⟨nd, hgp⟩ hpt hvq (by simp [Dest.site, Forest.isLive_of_get hgp]) hx h1 h2 h3 h4
+
+theorem insertAfter_frame {f : Forest} {r c q : Nat} {t : HTree} (inv : f.Inv) (norm : f.Normal)
+    (hok : (f.insertAfter r c).2 = .ok) (hgc : f.get? c = some t) (hq : f.parent? r = some q)
+    {x : Nat} {cx : Ctx} (hx : f.ctx? x = some cx)
+    (h1 : cx.parent ≠ q) (h2 : some cx.parent ≠ f.parent? c) (h3 : cx.parent ∉ handles t) (h4 : x ∉ handles t) :
+    ∃ cx', (f.insertAfter r c).1.ctx? x = some cx' ∧ cx'.shape = cx.shape := by
+  rw [insertAfter_spec inv norm hok]
+  have nd := inv.nodup
+  have hsc : f.structureCheck (f.parent? r) c = true := by
+    cases h : f.structureCheck (f.parent? r) c with
+    | true => rfl
+    | false => rw [insertAfter_unfold] at hok; simp [h] at hok
+  have hsr : f.siblingReferenceCheck r c = true := by
+    cases h : f.siblingReferenceCheck r c with
+    | true => rfl
+    | false => rw [insertAfter_unfold] at hok; simp [hsc, h] at hok
+  obtain ⟨q', vq, A, kr, B, t', sq, ekr, hkrn, hrc, hgc', hqt, hnorm, hndoc, hvq⟩ := sibling_checks_unpack nd hsc hsr
+  subst ekr
+  rw [hgc] at hgc'
+  have := Option.some.inj hgc'
+  subst this
+  have hq' : q' = q := by
+    have := Forest.parent?_of_ctx sq.ctx
+    rw [hq] at this
+    exact (Option.some.inj this).symm
+  subst hq'
+  exact frame_specMove' inv norm hgc sq hqt hvq (by simp only [Dest.site]; exact hq) hx h1 h2 h3 h4
+
+theorem insertBefore_frame {f : Forest} {r c q : Nat} {t : HTree} (inv : f.Inv) (norm : f.Normal)
+    (hok : (f.insertBefore r c).2 = .ok) (hgc : f.get? c = some t) (hq : f.parent? r = some q)
+    {x : Nat} {cx : Ctx} (hx : f.ctx? x = some cx)
+    (h1 : cx.parent ≠ q) (h2 : some cx.parent ≠ f.parent? c) (h3 : cx.parent ∉ handles t) (h4 : x ∉ handles t) :
+    ∃ cx', (f.insertBefore r c).1.ctx? x = some cx' ∧ cx'.shape = cx.shape := by
+  rw [insertBefore_spec inv norm hok]
+  have nd := inv.nodup
+  have hsc : f.structureCheck (f.parent? r) c = true := by
+    cases h : f.structureCheck (f.parent? r) c with
+    | true => rfl
+    | false => rw [insertBefore_unfold] at hok; simp [h] at hok
+  have hsr : f.siblingReferenceCheck r c = true := by
+    cases h : f.siblingReferenceCheck r c with
+    | true => rfl
+    | false => rw [insertBefore_unfold] at hok; simp [hsc, h] at hok
+  obtain ⟨q', vq, A, kr, B, t', sq, ekr, hkrn, hrc, hgc', hqt, hnorm, hndoc, hvq⟩ := sibling_checks_unpack nd hsc hsr
+  subst ekr
+  rw [hgc] at hgc'
+  have := Option.some.inj hgc'
+  subst this
+  have hq' : q' = q := by
+    have := Forest.parent?_of_ctx sq.ctx
+    rw [hq] at this
+    exact (Option.some.inj this).symm
+  subst hq'
+  exact frame_specMove' inv norm hgc sq hqt hvq (by simp only [Dest.site]; exact hq) hx h1 h2 h3 h4
+
+theorem remove_frame {f : Forest} {n : Nat} {t : HTree} (inv : f.Inv) (norm : f.Normal)
+    (hg : f.get? n = some t) {x : Nat} {cx : Ctx} (hx : f.ctx? x = some cx)
+    (h1 : some cx.parent ≠ f.parent? n) (h3 : cx.parent ∉ handles t) (h4 : x ∉ handles t) :
+    ∃ cx', (f.remove n).1.ctx? x = some cx' ∧ cx'.shape = cx.shape := by
+  rw [remove_spec (Keep.earlier_spec n) inv norm (Forest.isLive_of_get hg)]
+  exact frame_specRemove inv hg hx h1 h3 h4
+
+end XotModel
